@@ -26,13 +26,13 @@ esac
 
 
 class GitRepo:
-    def __init__(self, tmp, name="gitref"):
+    def __init__(self, tmp, name="gitref", fmt="sha1"):
         self.dir = os.path.join(tmp, name)
         self.aux = os.path.join(tmp, name + "-aux")
         os.makedirs(self.aux, exist_ok=True)
         self.env = {"PATH": os.environ.get("PATH", "/usr/bin:/bin"), "HOME": self.aux, "GIT_CONFIG_NOSYSTEM": "1",
                     "GIT_NO_REPLACE_OBJECTS": "1", "LC_ALL": "C", "TZ": "UTC", "GIT_CONFIG_GLOBAL": "/dev/null"}
-        subprocess.run([GIT, "init", "-q", "--object-format=sha1", self.dir], env=self.env, check=True,
+        subprocess.run([GIT, "init", "-q", "--object-format=" + fmt, self.dir], env=self.env, check=True,
                        stdout=subprocess.DEVNULL, stderr=subprocess.DEVNULL)
         self.dump = os.path.join(self.aux, "dump.sh")
         with open(self.dump, "w") as f:
@@ -96,6 +96,46 @@ class GitRepo:
             if "bad/incompatible signature" in e:
                 return None, "badformat"
             return None, "refused: " + e.strip()[:120]
+
+    def amend_many(self, oids, workers=6):
+        """what git takes the extra headers of root commits to be: `git commit --amend` re-writes the commit from its own parse
+        (read_commit_extra_headers, gpgsig excluded).  -> list of new commit bytes, or None where git refuses.  Each worker owns
+        a small repository that borrows the objects of this one (HEAD is written directly)."""
+        if not oids:
+            return []
+        subs = []
+        for w in range(min(workers, len(oids))):
+            d = "%s-amend%d-%d" % (self.dir, self.n, w)
+            subprocess.run([GIT, "init", "-q", "--object-format=sha1", d], env=self.env, check=True, stdout=subprocess.DEVNULL, stderr=subprocess.DEVNULL)
+            with open(os.path.join(d, ".git", "objects", "info", "alternates"), "w") as f:
+                f.write(os.path.join(self.dir, ".git", "objects") + "\n")
+            subs.append(d)
+        self.n += 1
+        env = dict(self.env)
+        env.update({"GIT_COMMITTER_NAME": "N", "GIT_COMMITTER_EMAIL": "e@f", "GIT_COMMITTER_DATE": "1700000000 +0000"})
+
+        def run(wk):
+            d, mine, out = subs[wk], oids[wk::len(subs)], []
+            head = os.path.join(d, ".git", "HEAD")
+            for o in mine:
+                with open(head, "w") as f:
+                    f.write(o + "\n")
+                p = subprocess.run([GIT, "-C", d, "commit", "-q", "--amend", "--allow-empty", "--allow-empty-message", "--no-edit",
+                                    "--cleanup=verbatim"], env=env, stdout=subprocess.PIPE, stderr=subprocess.PIPE, timeout=60)
+                with open(head) as f:
+                    new = f.read().strip()
+                if p.returncode != 0 or new == o:
+                    out.append(None)
+                    continue
+                q = subprocess.run([GIT, "-C", d, "cat-file", "commit", new], env=env, stdout=subprocess.PIPE, stderr=subprocess.PIPE, timeout=60)
+                out.append(q.stdout if q.returncode == 0 else None)
+            return out
+        res = self.pmap(run, list(range(len(subs))), workers=len(subs))
+        merged = [None] * len(oids)
+        for wk, out in enumerate(res):
+            for j, b in enumerate(out):
+                merged[wk + j * len(subs)] = b
+        return merged
 
     LOGFMT = "%T%x00%P%x00%an%x00%ae%x00%ad%x00%cn%x00%ce%x00%cd%x00%e%x00%B"
 
